@@ -306,6 +306,7 @@ RoundTripLaw(t, o) == InScope(t, o) => ReadTable(SpecEncode(t, o), o) = <<"ok", 
 RECURSIVE IsToonValue(_)
 IsToonValue(v) ==
   CASE v[1] \in {"null", "bool", "int", "str"} -> TRUE
+    [] v[1] \in {"dec", "dbl"} -> TRUE                            \* <<"dec", m, e>>: the finite number m * 10^e; recorded as <<"dbl", bits>>
     [] v[1] = "arr" -> \A i \in 1..Len(v[2]) : IsToonValue(v[2][i])
     [] v[1] = "obj" -> \A k \in DOMAIN v[2] : IsToonValue(v[2][k])
     [] OTHER -> FALSE
